@@ -617,7 +617,13 @@ fn token_binder(cfg: &Cfg, rep: &mut Report, h: u64, steps: usize, to_max: bool)
                 is_bound[t] = true;
             }
         } else if k < 55 {
-            let n = *rng.pick(&[1usize, 2, 50, 99, 100, 101, 150, 200, 201]);
+            let mut n = *rng.pick(&[1usize, 2, 50, 99, 100, 101, 150, 200, 201]);
+            // close to the capacity: a batch that fills the binder exactly, or goes one past
+            let room = 10_000usize.saturating_sub(bound.len());
+            if to_max && room >= 1 && room <= 200 {
+                n = if rng.chance(1, 2) { room } else { room + 1 };
+                rep.count(if n == room { "batch_fills_binder_exactly" } else { "batch_one_past_capacity" });
+            }
             let mut batch: Vec<usize> = (0..n).map(|j| (next_fresh + j) % universe).collect();
             next_fresh += n;
             let dup = rng.chance(1, 12) && n >= 2;
